@@ -204,7 +204,7 @@ func (c *Check) exportAccumulators(exp *Func) []exportAccum {
 			}
 			fam := ""
 			for _, e := range c.P.SummaryOf(ev.CI.fn).Effs {
-				if e.Kind == "store" && e.Op == "Iter" && len(e.Chain) <= 1 {
+				if e.Kind == "store" && e.Op == "Iter" && len(e.Chain) <= 3 {
 					if _, bare := c.P.keys().Prefixes[e.Builder]; bare {
 						fam = e.Family
 					}
@@ -555,10 +555,9 @@ func (c *Check) genesisCoverage(rule string) {
 	nPairs, nGet := 0, 0
 	if f := c.P.FuncNamed("types.Params.ParamSetPairs"); f != nil {
 		for _, pa := range c.P.PathsOf(f) {
-			for _, ev := range pa.Events {
-				if ev.Kind == EvCall && strings.HasSuffix(ev.CI.name, "NewParamSetPair") {
-					nPairs++
-				}
+			// the registered pairs are the elements of the returned list (however each pair is constructed)
+			if len(pa.Ret) == 1 && pa.Ret[0].Op == "lit" && len(pa.Ret[0].A)-1 > nPairs {
+				nPairs = len(pa.Ret[0].A) - 1
 			}
 		}
 	}
@@ -627,47 +626,91 @@ func (c *Check) storedValuesValidate(rule string) {
 	if rec == nil {
 		return
 	}
-	var vals []*Func
-	for _, pa := range c.P.PathsOf(rec) {
-		for _, ev := range pa.Events {
-			if ev.Kind == EvCall && ev.CI.fn != nil {
-				for _, a := range ev.CI.args {
-					if strings.HasSuffix(a.Op, ".ServiceBinding.Deposit") {
-						vals = append(vals, ev.CI.fn)
+	// does record validation accept the record when its deposit is the empty coin set? Followed through the
+	// helpers the deposit is handed to: a path is taken iff every test of the deposit on it agrees with the
+	// behaviour of sdk.Coins on the empty set.
+	var accepts func(g *Func, isEmpty func(*Term) bool, depth int) (accepted bool, rejecter *Func)
+	accepts = func(g *Func, isEmpty func(*Term) bool, depth int) (bool, *Func) {
+		var rej *Func
+		for _, pa := range c.P.PathsOf(g) {
+			consistent := true
+			for _, fa := range pa.AllFacts() {
+				if len(fa.T.A) >= 1 && isEmpty(fa.T.A[0]) {
+					if want, known := emptyCoinsTable[fa.T.Op]; known {
+						if want == fa.Neg {
+							consistent = false
+						}
+					} else if fa.T.Op == "nonempty" {
+						if !fa.Neg {
+							consistent = false
+						}
+					} else {
+						consistent = false // a predicate outside the table: the path is treated as not taken
+					}
+				}
+			}
+			if !consistent {
+				continue
+			}
+			// helpers the deposit is handed to must accept it as well (their verdict is the call's ok fact on this path)
+			calleesOK := true
+			for _, ev := range pa.Events {
+				if ev.Kind != EvCall || ev.CI.fn == nil || depth <= 0 || !ev.CI.fn.isHandWritten() || ev.CI.fn.Body == nil {
+					continue
+				}
+				for k, a := range ev.CI.args {
+					if !isEmpty(stripConv(a)) {
+						continue
+					}
+					pk := fmt.Sprintf("P%d", k)
+					okH, r := accepts(ev.CI.fn, func(t *Term) bool { return t.IsAt(pk) }, depth-1)
+					// this path continues past the call only if the helper accepted
+					accepting := pa.AllFacts().Has(Fact{T: mk("ok", ev.Result)}) || pa.Exit == ExitSuccess
+					if accepting && !okH {
+						calleesOK = false
+						if r != nil {
+							rej = r
+						} else {
+							rej = ev.CI.fn
+						}
+					}
+				}
+			}
+			if !calleesOK {
+				continue
+			}
+			if pa.Exit == ExitSuccess || pa.Exit == ExitMaybe {
+				return true, nil
+			}
+			if rej == nil {
+				rej = g
+			}
+		}
+		return false, rej
+	}
+	ok, rej := accepts(rec, func(t *Term) bool {
+		return strings.HasSuffix(t.Op, ".ServiceBinding.Deposit") && len(t.A) == 1 && t.A[0].IsAt("Precv")
+	}, 3)
+	name := rec.Name
+	pos := rec.Body.Pos()
+	if rej != nil {
+		name, pos = rej.Name, rej.Body.Pos()
+	}
+	if ok {
+		// name the construct after the validator the deposit reaches, as before
+		for _, pa := range c.P.PathsOf(rec) {
+			for _, ev := range pa.Events {
+				if ev.Kind == EvCall && ev.CI.fn != nil {
+					for _, a := range ev.CI.args {
+						if strings.HasSuffix(a.Op, ".ServiceBinding.Deposit") {
+							name, pos = ev.CI.fn.Name, ev.CI.fn.Body.Pos()
+						}
 					}
 				}
 			}
 		}
 	}
-	if len(vals) == 0 {
-		c.undecided(rule, rec.Name+"#deposit-validator", rec.Body.Pos(), "no validator is applied to Deposit")
-		return
-	}
-	v := vals[0]
-	// follow the path consistent with the table for the empty coin set
-	accepted, decided := false, false
-	for _, pa := range c.P.PathsOf(v) {
-		consistent := true
-		for _, fa := range pa.AllFacts() {
-			if len(fa.T.A) >= 1 && fa.T.A[0].IsAt("P0") {
-				if want, known := emptyCoinsTable[fa.T.Op]; known {
-					if want == fa.Neg {
-						consistent = false
-					}
-				} else if fa.T.Op == "nonempty" {
-					if !fa.Neg {
-						consistent = false
-					}
-				} else {
-					consistent = false // a predicate outside the table: undecided path, treated as not taken
-				}
-			}
-		}
-		if consistent {
-			decided = true
-			accepted = pa.Exit == ExitSuccess
-		}
-	}
-	c.req(decided && accepted, rule, v.Name+"#accepts-empty-deposit", v.Body.Pos(),
+	c.req(ok, rule, name+"#accepts-empty-deposit", pos,
 		"the empty deposit stored by "+where.Name+" (full refund) is accepted by the deposit validator that genesis validation applies to exported bindings")
 }
+
